@@ -162,14 +162,21 @@ def run(prog: Program, rep: Report, tier: str):
             dom = fa.cfg.dominates(rn, sn) and rn != sn
             # cut back to the dataset length at the repeat site
             cut = False
-            for x in fa.cfg.walk_node(rn):
-                if isinstance(x, ast.Subscript) and isinstance(x.slice, ast.Slice) and x.slice.upper is not None \
-                        and x.slice.lower is None and x.slice.step is None:
-                    base = x.value
-                    if any(isinstance(c, ast.Call) and isinstance(c.func, ast.Attribute) and c.func.attr == "repeat_interleave"
-                           for c in ast.walk(base)):
-                        up = fa.sym.term(x.slice.upper, rn)
-                        cut = up == ("call", ("global", "len"), (("self", "dataset"),), ())
+            for cn in sorted(fa.cfg.nodes):
+                if not (cn == rn or (fa.cfg.dominates(rn, cn) and (cn == sn or fa.cfg.dominates(cn, sn)))):
+                    continue
+                for x in fa.cfg.walk_node(cn):
+                    if isinstance(x, ast.Subscript) and isinstance(x.slice, ast.Slice) and x.slice.upper is not None \
+                            and x.slice.lower is None and x.slice.step is None:
+                        # the sliced value is (a temporary holding) the repeated draw
+                        bt = fa.sym.term(x.value, cn)
+                        is_rep = any(st_[0] == "call" and st_[1][0] == "attr" and st_[1][2] == "repeat_interleave"
+                                     for st_ in subterms(bt)) or any(
+                            isinstance(c, ast.Call) and isinstance(c.func, ast.Attribute) and c.func.attr == "repeat_interleave"
+                            for c in ast.walk(fa.expand(x.value, cn)))
+                        if is_rep:
+                            up = fa.sym.term(x.slice.upper, cn)
+                            cut = cut or up == ("call", ("global", "len"), (("self", "dataset"),), ())
             kw_ok = any(k.arg == "repeats" and fa.sym.term(k.value, rn) == ("self", "num_repeats") for k in reps[0][1].keywords) \
                 or (reps[0][1].args and fa.sym.term(reps[0][1].args[0], rn) == ("self", "num_repeats"))
             rep.decide(dom and cut and kw_ok, "G8.repeat-before-split", fi, "repeat",
@@ -251,7 +258,7 @@ def rank_split_rules(prog: Program, rep: Report, C: ClassInfo, fi: FuncInfo, fa:
                 if t[0] == "eq" and contains(t, ("self", "num_samples")):
                     trunc.add(n)
         last_y = [y for y in ys if fa.cfg.reachable(sn, y) or y == sn]
-        ok = bool(trunc) and all(fa.cfg.must_pass(trunc, src=sn, dst=y) for y in last_y) and bool(last_y)
+        ok = bool(trunc) and all(y in trunc or sn in trunc or fa.cfg.must_pass(trunc, src=sn, dst=y) for y in last_y) and bool(last_y)
         rep.decide(ok, "G9.rank-split", fi, "truncate", "per-rank list cut to len(self) before it is yielded",
                    "the per-rank list is yielded without being cut to len(self): ranks whose slice is one longer "
                    "emit an extra index", line=fa.line(sn), clause=clause)
